@@ -18,6 +18,8 @@
 #include <unifex/let_value_with_stop_source.hpp>
 #include <unifex/materialize.hpp>
 #include <unifex/on.hpp>
+#include <unifex/retry_when.hpp>
+#include <unifex/tracing/async_stack.hpp>
 #include <unifex/sequence.hpp>
 #include <unifex/stop_when.hpp>
 #include <unifex/then.hpp>
@@ -43,12 +45,12 @@ enum Kind {
   K_JUST, K_JUST_ERROR, K_JUST_DONE, K_LEAF,
   K_THEN, K_UPON_ERROR, K_UPON_DONE, K_LET_VALUE, K_LET_ERROR, K_LET_DONE,
   K_FINALLY, K_SEQUENCE, K_WHEN_ALL, K_STOP_WHEN, K_UNSTOPPABLE, K_VIA, K_ON,
-  K_WITH_TAG, K_MAT_DEMAT, K_DONE_AS_OPT, K_LVWSS, K_ANY_SENDER,
+  K_WITH_TAG, K_MAT_DEMAT, K_DONE_AS_OPT, K_LVWSS, K_ANY_SENDER, K_RETRY_WHEN,
   K_COUNT
 };
 const char* kKindName[] = {"just", "just_error", "just_done", "leaf", "then", "upon_error", "upon_done", "let_value", "let_error",
                            "let_done", "finally", "sequence", "when_all", "stop_when", "unstoppable", "via", "on", "with_tag",
-                           "mat_demat", "done_as_opt", "lvwss", "any_sender_of"};
+                           "mat_demat", "done_as_opt", "lvwss", "any_sender_of", "retry_when"};
 
 struct Node {
   int id = 0;
@@ -62,6 +64,8 @@ struct Node {
   node_base* impl = nullptr;
   int instances = 0;
   int leaf = -1;     // index into leaves for K_LEAF
+  int throw_on_connect = -1;  // the connect of this instance number throws (-1: never)
+  int connects = 0;
 };
 
 struct LeafScript {
@@ -104,6 +108,8 @@ struct World {
   hvec<LeafRec*> leafrecs;
   hvec<TapRec*> taps;
   hvec<FnCall> calls;
+  struct ConnThrow { int node; TapRec* parent; uint64_t seq; };
+  hvec<ConnThrow> conn_throws;
   struct Kept { void* p; void (*del)(void*); };
   hvec<Kept> kept;
   // root
@@ -192,6 +198,22 @@ bool val_copy_should_throw() {
 }
 
 void keep_until_end_of_run(void* p, void (*del)(void*)) { g_world->kept.push_back(World::Kept{p, del}); }
+
+void maybe_throw_on_connect(int node) {
+  usim::np_scope np;
+  Node& n = g_world->nodes[node];
+  int inst = n.connects++;
+  if (n.throw_on_connect != inst) return;
+  // parent instance under which this connect happens
+  TapRec* parent = nullptr;
+  if (n.parent >= 0)
+    for (auto* p : g_world->taps)
+      if (p->node == n.parent && (!parent || p->connect_seq > parent->connect_seq)) parent = p;
+  g_world->conn_throws.push_back(World::ConnThrow{node, parent, seq()});
+  g_world->fault_injected = true;
+  usim_probe("connect threw");
+  throw injected_throw(-5000 - node);
+}
 
 // ---- taps
 TapRec* tap_new(int node) {
@@ -467,6 +489,15 @@ void build_node(World* w, int id) {
         return unifex::then(unifex::done_as_optional(any_snd(a)), [k](std::optional<Val> o) { return o ? Val{o->get()} : Val{mix(k, -1)}; });
       });
       break;
+    case K_RETRY_WHEN:
+      n.impl = make_node([a, b, c, nid] {
+        return unifex::retry_when(any_snd(a), [b, c, nid, calls = 0](std::exception_ptr e) mutable {
+          note_call(nid, error_code(e));
+          // bounded: after three retries the trigger gives up with done
+          return unifex::then(any_snd(++calls <= 3 ? b : c), Discard{});
+        });
+      });
+      break;
     case K_ANY_SENDER: n.impl = make_node([a] { return unifex::any_sender_of<Val>(any_snd(a)); }); break;
     case K_LVWSS:
       n.impl = make_node([a] { return unifex::let_value_with_stop_source([a](unifex::inplace_stop_source&) noexcept { return any_snd(a); }); });
@@ -497,7 +528,7 @@ int gen(World* w, int depth, int parent, int* budget) {
   } else {
     static const int kinds[] = {K_LEAF, K_LEAF, K_JUST, K_THEN, K_THEN, K_UPON_ERROR, K_UPON_DONE, K_LET_VALUE, K_LET_ERROR, K_LET_DONE,
                                 K_FINALLY, K_SEQUENCE, K_WHEN_ALL, K_WHEN_ALL, K_STOP_WHEN, K_UNSTOPPABLE, K_VIA, K_ON, K_WITH_TAG,
-                                K_MAT_DEMAT, K_DONE_AS_OPT, K_LVWSS, K_JUST_ERROR, K_JUST_DONE};
+                                K_MAT_DEMAT, K_DONE_AS_OPT, K_LVWSS, K_JUST_ERROR, K_JUST_DONE, K_RETRY_WHEN};
     kind = kinds[draw((int)(sizeof kinds / sizeof kinds[0]))];
     {
       static int wrap = -1;
@@ -539,6 +570,14 @@ int gen(World* w, int depth, int parent, int* budget) {
     case K_LET_DONE: case K_FINALLY: case K_SEQUENCE: case K_STOP_WHEN:
       kid(0); kid(1);
       break;
+    case K_RETRY_WHEN: {
+      kid(0); kid(1);
+      // hidden third child: the give-up trigger
+      int gu = add_node(w, K_JUST_DONE, id);
+      w->nodes[id].child[2] = gu;
+      w->nodes[id].nchild = 3;
+      break;
+    }
     case K_WHEN_ALL:
       kid(0); kid(1);
       if (draw(3) == 0 && *budget > 1) kid(2);
@@ -645,6 +684,13 @@ bool stop_possibly_visible(World* w, TapRec* t) {
 
 // a's completion decisively precedes b's: it had fully returned before b's began, or b's whole
 // completion happened on the same thread nested inside a's (b was caused by a: no concurrency)
+// did the connect of `child` (as a late-connected part of parent instance t) throw?
+bool conn_threw(World* w, TapRec* t, int child) {
+  for (auto& c : w->conn_throws)
+    if (c.node == child && c.parent == t) return true;
+  return false;
+}
+
 bool strictly_before(TapRec* a, TapRec* b) {
   if (a->sig_exit && a->sig_exit < b->sig_enter) return true;
   if (a->sig_tid == b->sig_tid && a->sig_enter < b->sig_enter && b->sig_exit && a->sig_exit && b->sig_exit < a->sig_exit) return true;
@@ -655,10 +701,10 @@ void check_tap(World* w, TapRec* t, bool) {
   Node& n = w->nodes[t->node];
   if (!t->completed) return;
   bool relaxed = stop_possibly_visible(w, t);
-  TapRec* c0[4]; TapRec* c1[4]; TapRec* c2[4];
-  int n0 = n.nchild > 0 ? child_taps(w, n.child[0], t, c0, 4) : 0;
-  int n1 = n.nchild > 1 ? child_taps(w, n.child[1], t, c1, 4) : 0;
-  int n2 = n.nchild > 2 ? child_taps(w, n.child[2], t, c2, 4) : 0;
+  TapRec* c0[6]; TapRec* c1[6]; TapRec* c2[6];
+  int n0 = n.nchild > 0 ? child_taps(w, n.child[0], t, c0, 6) : 0;
+  int n1 = n.nchild > 1 ? child_taps(w, n.child[1], t, c1, 6) : 0;
+  int n2 = n.nchild > 2 ? child_taps(w, n.child[2], t, c2, 6) : 0;
   auto fail = [&](const char* why) {
     usim_report("c05.outcome", "node %d (%s) delivered %s %ld: %s", t->node, kKindName[n.kind], ch_name(t->channel), t->payload, why);
   };
@@ -699,6 +745,7 @@ void check_tap(World* w, TapRec* t, bool) {
       int on = n.kind == K_LET_VALUE ? CH_VALUE : n.kind == K_LET_ERROR ? CH_ERROR : CH_DONE;
       if (c->channel == on) {
         if (n.throws && n.kind != K_LET_DONE) { expect(CH_ERROR, thrown, "successor factory threw"); KIT_CHECK(n1 == 0, "c05.sequencing", "node %d: successor connected although the factory threw", t->node); break; }
+        if (conn_threw(w, t, n.child[1])) { expect(CH_ERROR, -5000 - n.child[1], "connecting the successor threw: set_error(current_exception)"); break; }
         TapRec* s = child_done(c1, n1);
         if (!s) { fail("completed although its successor has not"); break; }
         KIT_CHECK(s->start_seq > c->sig_enter, "c05.sequencing", "node %d: successor started before the predecessor completed", t->node);
@@ -713,6 +760,7 @@ void check_tap(World* w, TapRec* t, bool) {
       TapRec* s = child_done(c0, n0);
       TapRec* f = child_done(c1, n1);
       if (!s) { fail("completed although its source has not"); break; }
+      if (conn_threw(w, t, n.child[1])) { expect(CH_ERROR, -5000 - n.child[1], "connecting the completion sender threw: set_error"); break; }
       if (!f) { fail("completed although the completion sender has not run"); break; }
       KIT_CHECK(f->start_seq > s->sig_enter, "c05.sequencing", "finally: completion sender started before the source completed");
       if (f->channel == CH_VALUE) same_as(s, "source result after the completion sender's value");
@@ -726,6 +774,7 @@ void check_tap(World* w, TapRec* t, bool) {
         KIT_CHECK(n1 == 0 || !c1[0]->started, "c05.sequencing", "sequence: second step started although the first completed with %s", ch_name(a->channel));
         same_as(a, "first non-value signal wins");
       } else {
+        if (conn_threw(w, t, n.child[1])) { expect(CH_ERROR, -5000 - n.child[1], "connecting the next step threw: set_error"); break; }
         TapRec* b = child_done(c1, n1);
         if (!b) { fail("completed although its last step has not"); break; }
         KIT_CHECK(b->start_seq > a->sig_enter, "c05.sequencing", "sequence: second step started before the first completed");
@@ -769,6 +818,34 @@ void check_tap(World* w, TapRec* t, bool) {
       TapRec* c = child_done(c0, n0);
       if (!c) { fail("completed although its child has not"); break; }
       same_as(c, "transparent adaptor");
+      break;
+    }
+    case K_RETRY_WHEN: {
+      // walk the attempts: source instance i; on error the trigger instance i decides
+      if (n0 == 0) { fail("completed although its source was never connected"); break; }
+      int ntrig_b = 0, ntrig_c = 0;
+      bool decided = false;
+      for (int i = 0; i < n0 && !decided; ++i) {
+        TapRec* src = c0[i];
+        if (!src->completed) { fail("completed although a source attempt has not"); decided = true; break; }
+        if (src->channel != CH_ERROR) { same_as(src, "value/done of the source passes through"); decided = true; break; }
+        // the trigger of this attempt: child 1 for the first three errors, then the give-up trigger
+        TapRec* trig = nullptr;
+        if (i < 3) { if (ntrig_b < n1) trig = c1[ntrig_b++]; }
+        else { if (ntrig_c < n2) trig = c2[ntrig_c++]; }
+        if (!trig || !trig->completed) { fail("completed although the retry trigger has not"); decided = true; break; }
+        KIT_CHECK(trig->start_seq > src->sig_enter, "c05.sequencing", "retry_when: trigger started before the source attempt failed");
+        if (trig->channel != CH_VALUE) { same_as(trig, "trigger done/error ends the retry loop"); decided = true; break; }
+        // retry: the next source attempt must exist unless its re-connect threw
+        if (i + 1 >= n0) {
+          if (conn_threw(w, t, n.child[0])) expect(CH_ERROR, -5000 - n.child[0], "re-connecting the source threw: set_error");
+          else fail("trigger asked for a retry but the source was not restarted");
+          decided = true;
+        } else {
+          KIT_CHECK(c0[i + 1]->start_seq > trig->sig_enter, "c05.sequencing", "retry_when: source restarted before the trigger completed");
+        }
+      }
+      if (!decided) fail("every source attempt failed and was retried, yet the operation completed");
       break;
     }
     case K_ANY_SENDER: {
@@ -828,6 +905,33 @@ void expected_queries(World* w, int node, long* tag, int* sched, int* alloc) {
   }
 }
 
+TapRec* leaf_tap(World* w, LeafRec* r) {
+  for (auto* t : w->taps) if (t->node == r->node && t->inst == r->inst) return t;
+  return nullptr;
+}
+bool tap_under(TapRec* t, TapRec* anc) {
+  for (TapRec* c = t; c; c = c->parent) if (c == anc) return true;
+  return false;
+}
+// Is some *other* stop delivery possibly still in progress at `at` above this leaf? Only the request_stop()
+// call that makes the transition on a source returns after every callback has run; a concurrent second
+// caller returns at once. So "request X has returned" implies "X is visible below" only if no other
+// request (external, or the internal one of an enclosing when_all / stop_when) is in flight on another thread.
+bool other_stop_in_flight(World* w, TapRec* leaf, uint64_t at, TapRec* except_trigger, bool consider_external) {
+  if (consider_external && w->ext_stop_begin && w->ext_stop_begin < at && (!w->ext_stop_end || w->ext_stop_end > at)) return true;
+  for (TapRec* c = leaf; c && c->parent; c = c->parent) {
+    TapRec* p = c->parent;
+    Node& pn = w->nodes[p->node];
+    if (pn.kind != K_WHEN_ALL && pn.kind != K_STOP_WHEN) continue;
+    for (auto* s : w->taps) {
+      if (s->parent != p || s == c || s == except_trigger || !s->completed) continue;
+      bool triggers = pn.kind == K_STOP_WHEN || s->channel != CH_VALUE;
+      if (triggers && s->sig_enter < at && (!s->sig_exit || s->sig_exit > at)) return true;
+    }
+  }
+  return false;
+}
+
 bool shielded_from_root_stop(World* w, int node) {
   for (int x = w->nodes[node].parent; x >= 0; x = w->nodes[x].parent)
     if (w->nodes[x].kind == K_UNSTOPPABLE) return true;
@@ -859,7 +963,12 @@ void run_expr(World* w) {
             return q->w->root_done ? 1 : 0;
           } } p{w, a, nullptr};
         usim_wait(&P::pred, &p);
-        if (!p.pick) return;
+        if (!p.pick) {
+#ifndef NDEBUG
+          KIT_CHECK(unifex::tryGetCurrentAsyncStackRoot() == nullptr, "c20.stack-root", "an async stack root is still installed on actor thread T%d when it goes idle", usim_here());
+#endif
+          return;
+        }
         yields(p.pick->s.delay);
         p.pick->complete_fn(p.pick, 1);
       }
@@ -898,6 +1007,9 @@ void run_expr(World* w) {
   }
   for (int a = 0; a < kMaxActors; ++a) actors[a].join();
   stopper.join();
+#ifndef NDEBUG
+  KIT_CHECK(unifex::tryGetCurrentAsyncStackRoot() == nullptr, "c20.stack-root", "an async stack root is still installed on the starting thread after the operation completed");
+#endif
   if (box->alive()) box->destroy();
   { usim::np_scope np; delete box; }
 }
@@ -921,6 +1033,20 @@ void body_expr(void*) {
   if (!w->nleaves && w->ext_stop_mode == 3) w->ext_stop_mode = 2;
   if (faults && draw(6) == 0) w->val_copy_throw_at = 1 + draw(6);
   if (!faults) for (int i = 0; i < w->nnodes; ++i) w->nodes[i].throws = false;
+  if (faults && draw(5) == 0) {
+    // one late connect throws: a successor (let_*, sequence, finally) or a retried source
+    int cand[kMaxNodes], nc = 0;
+    for (int i = 0; i < w->nnodes; ++i) {
+      Node& p = w->nodes[i];
+      if (p.kind == K_LET_VALUE || p.kind == K_LET_ERROR || p.kind == K_LET_DONE || p.kind == K_SEQUENCE || p.kind == K_FINALLY) cand[nc++] = p.child[1];
+      if (p.kind == K_RETRY_WHEN) cand[nc++] = -1 - p.child[0];
+    }
+    if (nc) {
+      int c = cand[draw(nc)];
+      if (c >= 0) w->nodes[c].throw_on_connect = 0;
+      else w->nodes[-1 - c].throw_on_connect = 1 + draw(2);  // a retry's re-connect
+    }
+  }
   if (draw(3) == 0) usim_fault_rate(USIM_F_CAS_WEAK, 100);
   if (draw(4) == 0) usim_fault_rate(USIM_F_COND_SPURIOUS, 100);
   {
@@ -970,11 +1096,13 @@ void body_expr(void*) {
         usim_probe("leaf probed receiver queries");
       }
       // C04: an external stop request that returned before the leaf completed must be visible on its token
-      if (r->claimed && w->ext_stop_end && w->ext_stop_end < r->complete_begin && r->started && !shielded_from_root_stop(w, r->node)) {
+      if (r->claimed && w->ext_stop_end && w->ext_stop_end < r->complete_begin && r->started && !shielded_from_root_stop(w, r->node) &&
+          !other_stop_in_flight(w, leaf_tap(w, r), r->complete_begin, nullptr, false)) {
         KIT_CHECK(r->stop_at_completion, "c04.child-not-stopped", "leaf %d completed after the external stop request had returned, but its stop token did not report stop_requested()", r->leaf);
         usim_probe("external stop visible at running leaf");
       }
-      if (r->started && w->ext_stop_end && w->ext_stop_end < r->start_seq && !shielded_from_root_stop(w, r->node)) {
+      if (r->started && w->ext_stop_end && w->ext_stop_end < r->start_seq && !shielded_from_root_stop(w, r->node) &&
+          !other_stop_in_flight(w, leaf_tap(w, r), r->start_seq, nullptr, false)) {
         KIT_CHECK(r->stop_at_start, "c04.started-after-stop", "leaf %d was started after the external stop request returned with stop_requested()==false", r->leaf);
         usim_probe("leaf started already-stopped");
       }
@@ -998,8 +1126,10 @@ void body_expr(void*) {
             if (w->nodes[x].parent == t->node && x != n.child[ci]) in_sibling = true;
           }
           if (!in_sibling || shielded) continue;
-          // belongs to this when_all instance?
-          if (r->start_seq < t->start_seq || (t->sig_exit && r->start_seq > t->sig_exit)) continue;
+          // belongs to this when_all / stop_when instance? (instances of retried subtrees are told apart by the tap links)
+          TapRec* lt = leaf_tap(w, r);
+          if (!lt || !tap_under(lt, t)) continue;
+          if (other_stop_in_flight(w, lt, r->complete_begin, cs[0], true)) continue;
           if (cs[0]->sig_exit && cs[0]->sig_exit < r->complete_begin) {
             KIT_CHECK(r->stop_at_completion, "c04.loser-not-stopped", "leaf %d under %s node %d completed after sibling node %d had finished with %s, but never saw a stop request", r->leaf,
                       kKindName[n.kind], t->node, n.child[ci], ch_name(cs[0]->channel));
